@@ -167,19 +167,17 @@ impl PatchHeader {
     pub fn set_description(&mut self, description: &str) {
         if let Some(subject) = self.0.get("Subject") {
             // Replace the first line with ours
-            let new = format!(
-                "{}\n{}",
-                description,
-                subject.split_once('\n').map(|x| x.1).unwrap_or("")
-            );
+            let new = match subject.split_once('\n') {
+                Some((_, rest)) => format!("{}\n{}", description, rest),
+                None => description.to_string(),
+            };
             self.0.set("Subject", new.as_str());
         } else if let Some(old) = self.0.get("Description") {
             // Replace the first line with ours
-            let new = format!(
-                "{}\n{}",
-                description,
-                old.split_once('\n').map(|x| x.1).unwrap_or("")
-            );
+            let new = match old.split_once('\n') {
+                Some((_, rest)) => format!("{}\n{}", description, rest),
+                None => description.to_string(),
+            };
             self.0.set("Description", new.as_str());
         } else {
             self.0.set("Description", description);
